@@ -3,6 +3,7 @@ package props
 import (
 	"bytes"
 	"fmt"
+	"math/big"
 	"math/rand"
 	"strings"
 	"sync"
@@ -89,8 +90,17 @@ func receiptCases(r *rand.Rand, tag string, n int) []receiptCase {
 			} else {
 				mk("hash-truncated-31", text, hash[:31], sig)
 			}
-		case 0, 1, 2, 3:
+		case 0, 1, 2:
 			mk("valid", text, hash, sig)
+		case 3:
+			// the other encoding of the same signature: (r, N-s) with the recovery
+			// bit flipped recovers the same key ("high-s"; signers normalise it
+			// away, recovery accepts it)
+			hs := cp(sig)
+			sv := new(big.Int).Sub(new(big.Int).SetBytes(secpN), new(big.Int).SetBytes(sig[32:64]))
+			sv.FillBytes(hs[32:64])
+			hs[64] ^= 1
+			mk("valid-high-s", text, hash, hs)
 		case 4:
 			h := cp(hash)
 			h[r.Intn(32)] ^= 1 << uint(r.Intn(8))
@@ -140,7 +150,31 @@ func receiptCases(r *rand.Rand, tag string, n int) []receiptCase {
 }
 
 func c19f(clause, trigger, format string, a ...any) *check.Finding {
-	return &check.Finding{Props: []string{"C19"}, Clause: clause, Trigger: trigger, Detail: fmt.Sprintf(format, a...), Engine: "C19 receipts"}
+	props := []string{"C19"}
+	if strings.HasPrefix(clause, "answer/") {
+		props = append(props, "C04") // a receipt request is a request: answered exactly once, success or error
+	}
+	return &check.Finding{Props: props, Clause: clause, Trigger: trigger, Detail: fmt.Sprintf(format, a...), Engine: "C19 receipts"}
+}
+
+// partReceiptAnswers: the answers to receipt requests (C04) - pipelined bursts
+// and the deterministic queue-full scenario.
+func partReceiptAnswers(c *check.Ctx, a *acc) {
+	bin, err := c.WS.Build("lab", "plain")
+	if err != nil {
+		c.Inconc("build failed: " + err.Error())
+		return
+	}
+	var mu sync.Mutex
+	st := &c19stats{}
+	runReceiptBurst(c, bin, 8, c.Pick(57, 190), st, &mu)
+	reached := queueFull(c, bin, st)
+	c.Coverage["receipt_requests_submitted"] = st.submitted
+	c.Coverage["receipt_requests_answered"] = st.answered
+	c.Coverage["receipt_too_busy_answers"] = st.tooBusy
+	c.Coverage["receipt_queue_full_gate_reached"] = reached
+	a.add(st.submitted, st.answered, "receipt requests: pipelined bursts from 8 connections and a deterministic queue-full scenario (verifier held at a gate, 140 submissions against 128 slots): every request id answered exactly once - accepted, bad request or too busy, never two of them",
+		map[string]any{"engine": "C19 receipts", "submitted": st.submitted, "too_busy": st.tooBusy})
 }
 
 // awaitForwards waits until forwarding is over: in one (stop-the-world)
